@@ -227,6 +227,15 @@ def run_scan(cfg, ch):
                              instances=[D.Instance(i.itype, i.enabled, i.resolution, i.value) for i in a["inst"]]))
     bus = FaultBus(D.Bus24(devs), ch)
     m = DeviceInstanceTypeMapper()
+    if cfg.get("prior"):
+        # the mapper has been used before: it already holds (possibly outdated) entries - from an earlier scan of another
+        # population on the same addresses, or from initial=
+        if cfg["prior"] == "initial":
+            m = DeviceInstanceTypeMapper(initial={(addr, k): 31 for addr, an in cfg["devices"] for k in range(len(arch[an]["inst"]))})
+        else:
+            old = [D.Device(short=addr, status=0, instances=[D.Instance(31 if i.itype != 31 else 1, True) for i in arch[an]["inst"]])
+                   for addr, an in cfg["devices"]]
+            run_sequence(m.autodiscover(), D.Bus24(old), 6000)
     spec = cfg["spec"]
     if spec == "default":
         seq = m.autodiscover()
@@ -281,6 +290,10 @@ def judge_scan(res, cfg, bus, devs, m, kind, val, n):
         add_violation(res, f"C13:scan-unbounded:{tag}", f"{cfg}: {kind}", case)
         return "cap"
     got = dict(m.mapping)
+    if cfg.get("prior"):
+        # entries of instances that are enabled and answer NOW must carry the type they report now (what a re-scan does with
+        # entries of instances that no longer answer is not specified: those are ignored)
+        got = {k: v for k, v in got.items() if k in truth}
     if bus.injected:
         wrong = {k: v for k, v in got.items() if truth.get(k) != v}
         if wrong:
@@ -310,6 +323,7 @@ def shards(tier):
     if tier == "quick":
         out.append(("scan3q",))
     out.append(("scanspec",))
+    out.append(("rescan",))
     out.append(("enums",))
     for part in range(4):
         out.append(("addr_sweep", part))
@@ -374,6 +388,24 @@ def run_shard(shard):
     k = shard[0]
     if k == "addr_sweep":
         run_addr_sweep(res, shard[1])
+        return res
+    if k == "rescan":
+        # the scan on a mapper that was used before (earlier scan of other units on the same addresses / initial= entries)
+        names = ["one-pb", "two-mixed", "mixed-enabled", "type0", "both-status", "one-disabled"]
+        for prior in ("scan", "initial"):
+            for an in names:
+                for addr in (0, 5, 63):
+                    cfg = dict(devices=[(addr, an)], spec="default", prior=prior)
+                    bus, devs, m, kind, val, n = run_scan(cfg, None)
+                    judge_scan(res, cfg, bus, devs, m, kind, val, n)
+                    res["evaluations"] += 1
+                    res["transitions"] += n
+            cfg = dict(devices=[(1, "two-mixed"), (2, "one-pb"), (40, "type0")], spec="default", prior=prior)
+            bus, devs, m, kind, val, n = run_scan(cfg, None)
+            judge_scan(res, cfg, bus, devs, m, kind, val, n)
+            res["evaluations"] += 1
+        res["distinct"].add(("rescan", "ok"))
+        sample(res, {"rescan_on_used_mapper": names})
         return res
     if k == "enums":
         # filter bits and event-scheme numbers against literal tables (IEC 62386-301 / -303 / -304 event filter tables,
@@ -604,7 +636,7 @@ def replay(case):
         for ch, obs in explore(lambda c: run_setfilter(cfg, enum_cls, c), bound=nf):
             judge_setfilter(res, cfg, enum_cls, *obs)
     elif t == "scan":
-        cfg = {"devices": case["devices"], "spec": case["spec"]}
+        cfg = {"devices": [tuple(d) for d in case["devices"]], "spec": case["spec"] if isinstance(case["spec"], str) else tuple(case["spec"]), "prior": case.get("prior")}
         for ch, obs in explore(lambda c: run_scan(cfg, c), bound=nf):
             judge_scan(res, cfg, *obs)
     elif t in ("queryfilter", "queryfilter-bad"):
